@@ -991,6 +991,21 @@ func (c *Case) genStruct(t *rapid.T, depth int, label string) *Node {
 		sfs = append(sfs, reflect.StructField{Name: f.GoName, Type: f.N.T, Tag: reflect.StructTag(`serix:"` + f.Tag + `"`), Anonymous: anonymous})
 		n.Fields = append(n.Fields, f)
 	}
+	// reflect.StructOf returns the SAME type for identical field lists; every generated struct therefore needs at least
+	// one field whose name carries the struct's id (an embedded EmbA alone would make two generated structs share their
+	// type - and with it their registered object code)
+	unique := false
+	for _, f := range n.Fields {
+		if strings.HasPrefix(f.GoName, fmt.Sprintf("F%d_", id)) {
+			unique = true
+		}
+	}
+	if !unique {
+		f := &Field{GoName: fmt.Sprintf("F%d_u", id), Index: len(sfs), N: leaf(KUint8, numTypes[KUint8], "")}
+		f.Key = fieldKey(f.GoName)
+		sfs = append(sfs, reflect.StructField{Name: f.GoName, Type: f.N.T, Tag: `serix:""`})
+		n.Fields = append(n.Fields, f)
+	}
 	n.T = reflect.StructOf(sfs)
 	// object code for the generated struct (registered under its value type)
 	if rapid.IntRange(0, 2).Draw(t, label+".code") == 0 {
